@@ -358,6 +358,22 @@ func (f *FieldCopyFromGenerator) genObjectListOrMap() *j.Statement {
 
 // genCustom generates statement representing custom type
 func (f *FieldCopyFromGenerator) genCustom() *j.Statement {
+	if f.ParentIsOptionalEmbed {
+		// The hook is given the address of the field, which needs the embedded parent
+		parent := "obj." + f.ParentIsOptionalEmbedFieldName
+		return j.Block(
+			j.If(j.Id(parent).Op("==").Nil()).Block(
+				j.Id(parent).Op("=").Id("&"+f.ParentIsOptionalEmbedFullType+"{}"),
+			),
+			f.genCustomCall(),
+		)
+	}
+
+	return f.genCustomCall()
+}
+
+// genCustomCall generates the call of the custom type hook
+func (f *FieldCopyFromGenerator) genCustomCall() *j.Statement {
 	return j.Block(
 		// a, ok := ft.Attrs["key"]
 		j.List(j.Id("a"), j.Id("ok")).Op(":=").Id("tf.Attrs").Index(j.Lit(f.NameSnake)),
